@@ -3,6 +3,7 @@ package multidb
 import (
 	"errors"
 	"fmt"
+	"sort"
 	"strings"
 
 	"github.com/Fantom-foundation/lachesis-base/kvdb"
@@ -27,7 +28,14 @@ func NewProducer(producers map[TypeName]kvdb.FullDBProducer, routingTable map[st
 	routingFmt := make([]scanfRoute, 0, len(routingTable))
 	exactRoutingTable := make(map[string]Route, len(routingTable))
 	used := make(map[TypeName]kvdb.FullDBProducer)
-	for req, route := range routingTable {
+	// patterns are tried in the order of routingFmt, so it must not depend on the map iteration order
+	reqs := make([]string, 0, len(routingTable))
+	for req := range routingTable {
+		reqs = append(reqs, req)
+	}
+	sort.Strings(reqs)
+	for _, req := range reqs {
+		route := routingTable[req]
 		used[route.Type] = producers[route.Type]
 		if !strings.ContainsRune(req, '%') && !strings.ContainsRune(route.Name, '%') {
 			exactRoutingTable[req] = route
